@@ -11,11 +11,13 @@ fixed_lines = 1
 rule = ("scripts = 'e new fb|nofb|builtin' followed by dispatcher ops (set/cset/clear/clearall/emit id|msg|cmd|none/hash/"
         "hashf (mpt_dispatch_hash with the message in fragments a,b,c, each fragment in a block of exactly its size)/"
         "emit cmd (the handler reached hands the message on with mpt_dispatch_hash and returns what that returned)/"
+        "hashn (dispatch by hash without a message)/hold w k (k reservations in a row that stay outstanding, then released)/"
+        "djb2 <hex> (mpt_hash_djb2 in C-string and counted mode)/"
         "reserve/fini/drop (release the table through the array interface)/tcopy r (copy-construct the element of "
         "registration r through the content traits); second part: the C++ class mpt::dispatch (xe new/set/clear/get/"
         "setdef/seterr/reserve/emit/hash/del); the last operand of emit/hash is what the invoked handler returns, suffix z = it also "
-        "clears the event id); stream 1 enumerates every history of length <= 4 (quick: 3 over the full alphabet, "
-        "4 over the reduced one) over ids {0,1,2,djb2('a')} x handler results {0,1,2,3,-1,1z,3z}; stream 2 = "
+        "clears the event id); stream 1 enumerates every history of length <= 3 (quick: 2) over the full alphabet and of "
+        "length 3..5 (quick: 3..4) over the reduced one, over ids {0,1,2,djb2('a')} x handler results {0,1,2,3,-1,1z,3z}; stream 2 = "
         "boundary histories (ids 2^64-1/2^63/127/128/255/256, every reserve width, table growth at the 3rd/9th/"
         "14th element, raw tables created by reserve, sign-extended hash bytes, separators, white space); "
         "nested dispatch for every start mode x command registered/unregistered/without text x handler results, fragmented "
@@ -27,7 +29,7 @@ assumptions = [
     "a handler answers with an int (flags or negative error) and may clear the event id, or re-enters the dispatcher exactly once through mpt_dispatch_hash on the same event and returns its result (emit cmd); other re-entrance (registering/clearing from inside a handler) is not driven",
     "malloc never fails in the harness runs; the dispatcher has no fallback reply context (_ctx = NULL)",
     "emitted messages are one contiguous part; messages dispatched by hash may come in up to 16 fragments (mpt_message_read/mpt_message_argv as modelled for C17 in Impl/Message.lean)",
-    "for separators that are not graphic characters (white-space splitting with quotes) the spec accepts any non-empty prefix of the payload as the command text; the model mirrors mpt_memtok and is compared with the code",
+    "for separators that are not graphic characters (white-space splitting) the command word is exact (text after leading white space up to the first white-space character) whenever it holds no quote character and is followed by a blank or the end of the message; only with quotes, or a form feed / zero byte right behind the word, the spec accepts any non-empty prefix of the payload (the quoting rules of mpt_memtok are mirrored by the model and compared with the code)",
     "the fallback is the harness handler (registration 0), none, or the library's built-in unknownEvent (start mode builtin; its answers are part of the spec vocabulary)",
     "a reserved element is activated by the caller (handler + argument set) before anything else happens",
     "mpt_hash is the default djb2 variant (no _mpt_hash_set call)",
@@ -68,7 +70,7 @@ def _alphabet_full():
         ops.append("e hash 000061 %s" % r)          # Output header, text "a"
         ops.append("e hash 043a20613a62 %s" % r)    # Command header, sep ':', " a:b"
         ops.append("e emit cmd 000061 %s" % r)      # handler 0 hands the text "a" on
-    ops += ["e emit msg - 1", "e hash 0000 1", "e hash 04 1", "e hash - 1", "e hash 00006100 1"]
+    ops += ["e emit msg - 1", "e hash 0000 1", "e hash 04 1", "e hash - 1", "e hash 00006100 1", "e hashn", "e hold 1 2", "e hold 1 130", "e tcopy 7"]
     return ops
 
 
@@ -76,7 +78,7 @@ def _alphabet_small(tier):
     return ["e set 1", "e set 2", "e cset 1", "e clear 1", "e clear 2", "e clearall", "e fini", "e reserve 1", "e drop",
             "e emit id 1 0", "e emit id 1 1", "e emit id 1 3z", "e emit id 1 -1", "e emit id 2 1", "e emit id 0 1",
             "e emit msg 01 3", "e emit none 0", "e emit none 1", "e emit none 1z", "e set %d" % HA,
-            "e hash 000061 2", "e hash 000061 -1"] + (["e emit cmd 010061 3"] if tier != "quick" else [])
+            "e hash 000061 2"] + (["e hash 000061 -1", "e emit cmd 010061 3"] if tier != "quick" else [])
 
 
 def _boundary():
@@ -165,6 +167,26 @@ def _boundary():
             out.append(("b:traits:%s:%d" % (new, len(pre)), ["e new " + new] + pre + ["e tcopy 1", "e tcopy 2", "e tcopy 3", "e tcopy 0", "e tcopy 99", "e drop",
                                                                                "e emit id 1 0", "e tcopy 1", "e drop", "e reserve 1", "e set 1", "e drop", "e fini"]))
     out += _nested() + _frags()
+    # reservations that stay outstanding (placeholder handler): k in a row on tables of every shape, then released
+    for pre in ([], ["e set 1"], ["e set 1", "e set 2", "e clear 1"], ["e cset 127"], ["e cset 126", "e cset 127"], ["e reserve 1", "e reserve 1", "e clear 1"],
+                ["e set %d" % M64], ["e set 32767", "e set 5"], ["e set %d" % k for k in range(1, 20, 2)], ["e set 3", "e drop"], ["e set 3", "e clearall"]):
+        for w, k in ((1, 1), (1, 3), (1, 126), (1, 127), (1, 128), (2, 5), (2, 300), (3, 2), (8, 4), (0, 2), (9, 2)):
+            for new in ("fb", "builtin"):
+                out.append(("b:hold:%s:%d:%d:%d" % (new, len(out), w, k),
+                            ["e new " + new] + pre + ["e hold %d %d" % (w, k), "e reserve %d" % max(w, 1), "e hold %d %d" % (w, k), "e emit id 1 1",
+                                                      "e clear 1", "e hold %d 2" % w, "e set 1", "e hold 1 127", "e fini", "e hold %d 1" % w]))
+    # the hash function itself: C string mode and counted mode
+    for t in ["-", "61", "6162", "ff", "80", "7f80ff", "6100", "610062", "00", "0061", "e4f6fc00e4", "61" * 200, "ff" * 64 + "00" + "41"]:
+        out.append(("b:djb2:" + t[:12], ["e new nofb", "e djb2 " + t, "e hashn", "e djb2 " + t]))
+    # plain white-space separated command words: the word boundary is exact (no other cut is accepted)
+    for txt in (b"ab c", b"  ab c", b"ab\tc", b"ab", b"ab ", b"a b c", b"abc def", b"x\n", b"\t\n run now", b"go\r\nnow", b"ab\x0bc", b"ab\x0cc", b"ab\x00c d", b"a'b c'", b"a\\ b"):
+        for hdr in ("0420", "0409", "040a", "0480", "0401"):
+            msg = bytes.fromhex(hdr) + txt
+            word = txt.lstrip(b" \t\n\v\f\r")
+            cuts = [djb2(word[:k]) for k in range(1, len(word) + 1)]
+            out.append(("b:word:%s:%s" % (hdr, txt.hex()[:14]),
+                        ["e new fb"] + ["e set %d" % c for c in sorted(set(cuts))[:14]] + ["e hash %s 2" % msg.hex(), "e hashf %s,%s 1" % (msg[:3].hex(), msg[3:].hex() or "-"),
+                                                                                        "e emit cmd %s 1" % msg.hex(), "e clearall", "e hash %s 0" % msg.hex(), "e fini"]))
     # malformed op lines (both sides must answer bad-op)
     out.append(("b:badop", ["e new fb", "e set", "e set -1", "e set 01", "e set 18446744073709551616", "e emit id 1", "e emit id 1 +1",
                             "e emit id 1 -0", "e emit id 1 2147483648", "e emit id 1 -2147483649", "e emit msg 0g 1", "e emit msg 012 1",
@@ -247,7 +269,7 @@ def _random(tier, seed, scale):
             lines.append("e reserve %d" % r.choice([1, 1, 2, 8]))
         for _ in range(r.choice([6, 12, 25, 40])):
             kind = r.choice(["set", "set", "set", "cset", "clear", "clear", "emit", "emit", "emit", "msg", "none", "none", "hash", "reserve",
-                             "clearall", "fini", "bad", "drop", "tcopy", "cmd", "hashf"])
+                             "clearall", "fini", "bad", "drop", "tcopy", "cmd", "hashf", "hold", "hashn"])
             res = r.choice(["0", "0", "1", "1", "2", "3", "-1", "-4", "1z", "3z", "4", "5", "%d" % r.randrange(-20, 70000)]
                            + (["%dz" % r.randrange(0, 8)] if r.random() < 0.2 else []))
             i = r.choice(ids)
@@ -286,6 +308,10 @@ def _random(tier, seed, scale):
                     lines.append("e drop")
             elif kind == "tcopy":
                 lines.append("e tcopy %d" % r.randrange(0, 12))
+            elif kind == "hold":
+                lines.append("e hold %d %d" % (r.choice([0, 1, 1, 1, 2, 8]), r.choice([1, 2, 5, 130])))
+            elif kind == "hashn":
+                lines.append("e hashn")
             elif kind == "fini":
                 if r.random() < 0.3:
                     lines.append("e fini")
@@ -365,11 +391,11 @@ def scripts(tier, seed, scale=1):
         top_full = 2 if tier == "quick" else 3
         for ln in range(1, top_full + 1):
             for combo in itertools.product(full, repeat=ln):
-                out.append(("ex:%s:%s" % (new, "/".join(c[2:] for c in combo)), ["e new " + new] + list(combo)))
+                out.append(("ex:%s:%s" % (new, "/".join(c[2:] for c in combo)), ["e new " + new] + list(combo) + ["e fini"]))
     top_small = 4 if tier == "quick" else 5
     for ln in range(3, top_small + 1):
         for combo in itertools.product(small, repeat=ln):
-            out.append(("exs:%s" % "/".join(c[2:] for c in combo), ["e new fb"] + list(combo)))
+            out.append(("exs:%s" % "/".join(c[2:] for c in combo), ["e new fb"] + list(combo) + (["e fini"] if tier != "quick" else [])))
     out += _boundary()
     out += _random(tier, seed, scale)
     return out
